@@ -49,6 +49,16 @@ claim("C03", "proof",
       "logging actions using $i, $Ti, $Context and a chosen failing call; an implementation-only oracle checks log/result consistency.",
       LR_NOTE, "Rocq proof (stack invariant carrying ghost trees and threaded evaluation) + translation validation + differential correspondence", "6 C03")
 
+claim("C15", "proof",
+      "The checked-in front-end tables (read through verifdump ftables) and the syntactic part of spec/gocc2.ebnf are translated to Gallina "
+      "on every run; the Coq kernel evaluates the verified validator lr_valid(spec grammar, tables, annotation) by vm_compute, so the "
+      "Sound/Complete theorems (Properties/C15.v) hold for these very tables: for ALL token sequences, accepted <=> sentence of the spec, "
+      "reductions are productions of the spec (the tables' productions are matched one-to-one with the spec's by head and body). The real "
+      "front-end Parse loop (after the fix gating recovery on canRecover) is compared with the model on derivations of the spec and their "
+      "mutations; Earley on the spec is the oracle.",
+      LR_NOTE + " The spec file is read by a small tokenizer; annotations come from an untrusted Python LR(1) construction and are checked by the validator.",
+      "kernel-evaluated verified validator on the shipped tables vs the documented grammar (Rocq) + differential correspondence of the real loop", "6 C15")
+
 ALL = ["C%02d" % i for i in range(1, 21)]
 NOT_YET = "framework under construction: check for this property not built yet (planned, see DESIGN.md section 6)"
 
